@@ -171,6 +171,17 @@ func (e *Engine) builtin(st *State, b *ssa.Builtin, cc *ssa.CallCommon, args []V
 		case StringV:
 			return IntV{e.stringView(x).Len}
 		case PtrV: // map or chan
+			if len(x.Alts) > 1 {
+				n := c.BV(0, 64)
+				for _, al := range x.Alts {
+					if al.Obj != nil && al.Obj.Kind == KMap {
+						n = c.Ite(al.G, e.mapLen(st, al.Obj), n)
+					} else if al.Obj != nil {
+						panic(e.unsupported("len of merged channel"))
+					}
+				}
+				return IntV{n}
+			}
 			a, ok := x.single()
 			if ok && a.Obj != nil && a.Obj.Kind == KMap {
 				return IntV{e.mapLen(st, a.Obj)}
@@ -180,7 +191,7 @@ func (e *Engine) builtin(st *State, b *ssa.Builtin, cc *ssa.CallCommon, args []V
 					return IntV{c.ZExt(t, 64)}
 				}
 				ch := st.Heap[a.Obj].(*ChanContent)
-				return IntV{c.BV(uint64(len(ch.Buf)), 64)}
+				return IntV{c.ZExt(ch.Count, 64)}
 			}
 			if ok && a.Obj == nil {
 				return IntV{c.BV(0, 64)}
